@@ -122,6 +122,15 @@ def run(ctx: Ctx) -> Result:
         res.count('threaded_calls', len(ids))
         if not oracle(ids):
             res.violations.append(Violation('duplicate-id', 'duplicate id from concurrent callers', {'threads': 8}))
+        # the same with the generator's integer fields turned into points where a thread gives way to the others
+        ids = threaded_ids(4, 120 if ctx.thorough else 40, ctx.rng, perturb=True)
+        res.add_case({'threads': 4, 'calls': len(ids), 'perturbed': True})
+        res.count('threaded_calls_perturbed', len(ids))
+        if not oracle(ids):
+            dup = sorted({i for i in ids if ids.count(i) > 1})[:3]
+            res.violations.append(Violation('duplicate-id', f'duplicate identifiers {dup} from 4 concurrent callers (threads made to give way '
+                                            f'at every access to the remembered second / counter): the read-modify-write is not '
+                                            f'mutually exclusive', {'threads': 4, 'perturbed': True}))
     # correspondence with the model
     if ctx.model_available():
         model_out = run_model('idgen', lines)
@@ -192,7 +201,30 @@ def setup_prefix_violations():
     return out
 
 
-def threaded_ids(nthreads, per, rng):
+def yielding(g):
+    """make every integer field of the generator a point where the running thread gives way to the others (its reads
+    and writes sleep for a moment): without mutual exclusion around the read-modify-write of the remembered second and
+    the counter two callers then interleave inside it almost surely; with it they cannot (the others wait for the lock).
+    The fields are found by inspection, whatever they are called."""
+    import time as _t
+    fields = [k for k, v in vars(g).items() if isinstance(v, int) and not isinstance(v, bool)]
+    store = {k: vars(g).pop(k) for k in fields}
+    ns = {}
+    for k in fields:
+        def getter(self, k=k):
+            v = store[k]
+            _t.sleep(0.0002)
+            return v
+
+        def setter(self, v, k=k):
+            store[k] = v
+            _t.sleep(0.0002)
+        ns[k] = property(getter, setter)
+    g.__class__ = type(g.__class__.__name__ + 'Yielding', (g.__class__,), ns)
+    return g
+
+
+def threaded_ids(nthreads, per, rng, perturb=False):
     lock = threading.Lock()
     state = {'t': 1000}
 
@@ -204,6 +236,8 @@ def threaded_ids(nthreads, per, rng):
     event_id_mod.time = clock
     try:
         g = BoboGenEventIDUnique('thr')
+        if perturb:
+            g = yielding(g)
         out = [[] for _ in range(nthreads)]
 
         def work(k):
